@@ -733,3 +733,35 @@ def add_defs(body, local):
                     if back or tmp == local:
                         out.append((b, other))
     return out
+
+
+def through_tuples(body, op, depth=4):
+    """Operand behind `let (a, b) = (x, y)`-style destructuring: follows field reads of single-definition tuple
+    aggregates (also when the tuple is the value of several match arms: then every arm's component) and returns
+    the set of base locals the operand can be."""
+    out = set()
+    work = [(op, depth)]
+    while work:
+        o, d = work.pop()
+        if o["k"] not in ("copy", "move"):
+            continue
+        l = base_local(body, o)
+        if l is None:
+            continue
+        defs_ = [x for x in body.defs().get(l, []) if x[0] == "assign"]
+        fld = None
+        if len(body.defs().get(l, [])) == 1 and defs_:
+            rv = defs_[0][3]["rv"]
+            if rv["k"] == "use" and rv["op"]["k"] in ("copy", "move"):
+                pp = rv["op"]["place"]["p"]
+                if len(pp) == 1 and pp[0]["k"] == "field":
+                    fld = (rv["op"]["place"]["l"], pp[0]["i"])
+        if fld and d > 0:
+            tl, k = fld
+            aggs = [x for x in body.defs().get(tl, []) if x[0] == "assign" and x[3]["rv"]["k"] == "aggregate" and x[3]["rv"].get("akind") in ("tuple", None) and len(x[3]["rv"]["ops"]) > k]
+            if aggs and len(aggs) == len(body.defs().get(tl, [])):
+                for a in aggs:
+                    work.append((a[3]["rv"]["ops"][k], d - 1))
+                continue
+        out.add(l)
+    return out
